@@ -146,6 +146,7 @@ let predict (c : string) (obs : string) : string * string * bool =
         let tok = strn () in
         let pp = next () in
         let tmpl = next () in
+        let pre = next () in
         (* the body bytes matter to the model only for assert/response *)
         let body = if pp.[0] = 'a' then expand_body body_f else [] in
         pp_codes := !pp_codes @ [pp];
@@ -153,14 +154,21 @@ let predict (c : string) (obs : string) : string * string * bool =
         let pps = (match String.split_on_char ':' pp with
           | ["-"] -> []
           | ["h"; ch] -> [ (match var_header_one (chain_of_text (string_of_bytes (bytes_of_hex ch))) tok with Done _ -> Done () | Failed -> Failed | Panicked -> Panicked) ]
-          | ["j"; b] -> [ var_jsonpath_process true [b = "1"] ]
+          | ["j"; b] | ["J"; b] -> [ var_jsonpath_process true [b = "1"] ]
           | ["x"; k] -> [ xpath_values true (if k = "number" then XNumber else XNodeSet) ]
           | ["a"; st; pat] -> [ assert_process { as_body = [bytes_of_hex pat]; as_headers = []; as_status = z_of_int (int_of_string st); as_size = None }
                                   { rv_status = status; rv_header = (fun _ -> []); rv_body = body } ]
           | _ -> failwith "pp") in
-        { si_opts = opts; si_pre_ok = true; si_tmpl_ok = (tmpl <> "e"); si_prep_ok = (tmpl <> "u0"); si_resp = resp; si_pps = pps }) in
+        let pre_o = (match String.split_on_char ':' pre with
+          | ["i"; ix; len] ->
+              let ix = (match ix with "next" -> INext | "rand" -> IRand | "last" -> ILast
+                        | s -> (match int_of_string_opt s with Some i -> INum (z_of_int i) | None -> IBad)) in
+              (* which element [next]/[rand] pick is the iterator's business; only error / element / panic matters here *)
+              extract_elem ix (z_of_int (int_of_string len)) (z_of_int 0) (z_of_int 0)
+          | _ -> Done ()) in
+        { si_opts = opts; si_pre = pre_o; si_tmpl_ok = (tmpl <> "e"); si_prep_ok = (tmpl <> "u0"); si_resp = resp; si_pps = pps }) in
       let shots =
-        if gun = "http" || h2gun then
+        if gun = "http" || gun = "connect" || h2gun then
           List.map (fun s -> base_shoot { bc_bound = true; bc_connect = None; bc_http2 = h2gun; bc_opts = opts } false s.si_resp) steps
         else List.init iters (fun _ -> scenario_shoot true steps) in
       let (samples, failed) = instance_run shots in
@@ -175,12 +183,13 @@ let predict (c : string) (obs : string) : string * string * bool =
          | run :: cnt :: rest ->
              (* the documented fatal condition: http2 gun and a target that does not negotiate HTTP/2 (and is reachable) *)
              if failed && h2gun && not target_h2 then (if run = "run=panic" then "ok" else "BAD:documented-fatal-condition-not-fatal")
+             else if run = "run=crashed" then "BAD:process-crashed"
              else if run = "run=panic" then begin
                (* name the postprocessor of the first step that the model sees panicking *)
                let culprit = List.fold_left (fun acc (pp, st) ->
                  if acc <> "" then acc
                  else if List.exists (function Panicked -> true | _ -> false) st.si_pps then
-                   (match pp.[0] with 'h' -> "var/header" | 'x' -> "var/xpath" | 'j' -> "var/jsonpath" | 'a' -> "assert/response" | _ -> "?")
+                   (match pp.[0] with 'h' -> "var/header" | 'J' -> "var/jsonpath" | 'x' -> "var/xpath" | 'j' -> "var/jsonpath" | 'a' -> "assert/response" | _ -> "?")
                  else "") "" (List.combine !pp_codes steps) in
                "BAD:run-aborted-by-panic:" ^ (if culprit = "" then "unexplained" else culprit)
              end
